@@ -81,8 +81,10 @@ def gen_case(r, k, same=None, long_=False):
     c["sfac"] = [r.choice([0.0, 0.25, 0.5, 0.5, 1.0, 2.0, -1.0]) for _ in range(nt)] if c["scaled"] else []
     # inputPrefix: counts and gradients read from .count/.grad files before the first step
     if r.random() < 0.25:
-        icnt = [r.choice([0, 0, 1, 2, 3, 5, 8]) for _ in range(nt)]
-        c["input"] = {"cnt": icnt, "grad": [(V.dyadic(r, -4, 4, bits=2) if icnt[a] > 0 else 0.0) for a in range(nt) for _ in range(nd)]}
+        c["input"] = []       # one data set per prefix of the inputPrefix list
+        for _ in range(r.choice([1, 1, 2])):
+            icnt = [r.choice([0, 0, 1, 2, 3, 5, 8]) for _ in range(nt)]
+            c["input"].append({"cnt": icnt, "grad": [(V.dyadic(r, -4, 4, bits=2) if icnt[a] > 0 else 0.0) for a in range(nt) for _ in range(nd)]})
     # applyBias switched at run time (cv bias a set apply_force 0|1) before some steps
     c["toggle"] = r.random() < 0.2
     nsteps = r.randint(60, 160) if long_ else r.randint(6, 26)
@@ -140,20 +142,25 @@ def cv_applies(c, st, d):
     return apply_at(c, st) or c["vars"][d]["hk"] is not None
 
 
-def input_grid_files(c):
-    """<prefix>.count and <prefix>.grad in the multicolumn format (inputPrefix)"""
+def inputs_of(c):
+    i = c.get("input")
+    return [] if not i else ([i] if isinstance(i, dict) else i)
+
+
+def input_grid_files(c, ds):
+    """<prefix>.count and <prefix>.grad in the multicolumn format (inputPrefix) of one data set"""
     vs, nd = c["vars"], len(c["vars"])
     hdr = ["# %d" % nd] + ["# %s %s %d %d" % (fmt(v["lower"]), fmt(v["w"]), v["nx"], 1 if v["periodic"] else 0) for v in vs] + [""]
     lc, lg = list(hdr), list(hdr)
     ix = [0] * nd
-    for a in range(len(c["input"]["cnt"])):
+    for a in range(len(ds["cnt"])):
         rem = a
         for d in range(nd - 1, -1, -1):
             ix[d] = rem % vs[d]["nx"]
             rem //= vs[d]["nx"]
         xs = " ".join(fmt(v["lower"] + (i + 0.5) * v["w"]) for v, i in zip(vs, ix))
-        lc.append(xs + " %d" % c["input"]["cnt"][a])
-        lg.append(xs + " " + " ".join(fmt(g) for g in c["input"]["grad"][a * nd:(a + 1) * nd]))
+        lc.append(xs + " %d" % ds["cnt"][a])
+        lg.append(xs + " " + " ".join(fmt(g) for g in ds["grad"][a * nd:(a + 1) * nd]))
     return "\n".join(lc) + "\n", "\n".join(lg) + "\n"
 
 
@@ -270,8 +277,8 @@ def scenario(c):
         abf += ["  hideJacobian on"]
     if c.get("scaled"):
         abf += ["  scaledBiasingForce on", "  scaledBiasingForceFactorsGrid %s.sf" % c["id"]]
-    if c.get("input"):
-        abf += ["  inputPrefix %s_in" % c["id"]]
+    if inputs_of(c):
+        abf += ["  inputPrefix " + " ".join("%s_in%d" % (c["id"], n) for n in range(len(inputs_of(c))))]
     abf += ["}"]
     harm = []
     hv = [d for d, v in enumerate(c["vars"]) if v["hk"] is not None]
@@ -325,10 +332,9 @@ def model_case(c):
     for v in vs:
         nt *= v["nx"]
     parts += [str(int(bool(c.get("scaled"))))] + [V.hexf(x) for x in (c["sfac"] if c.get("scaled") else [1.0] * nt)]
-    if c.get("input"):
-        parts += ["1"] + [str(x) for x in c["input"]["cnt"]] + [V.hexf(g) for g in c["input"]["grad"]]
-    else:
-        parts += ["0"]
+    parts += [str(len(inputs_of(c)))]
+    for ds in inputs_of(c):
+        parts += [str(x) for x in ds["cnt"]] + [V.hexf(g) for g in ds["grad"]]
     parts += [str(len(c["steps"]))]
     for st in c["steps"]:
         parts += [V.hexf(colvar_value(v, z)) for v, z in zip(vs, st["z"])]
@@ -599,10 +605,12 @@ def oracle(c, impl_steps, state=None, files=None):
     smp = expected_samples(c)
     cnt = [0] * nt
     sm = [Fr(0)] * (nt * nd)
-    if c.get("input"):
-        # inputPrefix: count read, and gradient read * count read
-        cnt = list(c["input"]["cnt"])
-        sm = [Fr(c["input"]["grad"][i]) * cnt[i // nd] for i in range(nt * nd)]
+    for ds in inputs_of(c):
+        # inputPrefix: counts read, and gradient read * count read, of every data set
+        for a in range(nt):
+            cnt[a] += ds["cnt"][a]
+        for i in range(nt * nd):
+            sm[i] += Fr(ds["grad"][i]) * ds["cnt"][i // nd]
     for a, F, t in smp:
         cnt[a] += 1
         for d in range(nd):
@@ -853,16 +861,17 @@ def judge_hidej_switched(c, steps):
 
 
 def witness_input():
-    """inputPrefix: counts (3, 0) and gradient (-1.5, 0) read from files, then two samples of 2 in bin 0 and one of 1 in bin 1 (same-step)."""
+    """inputPrefix with two prefixes: counts (3, 0) with gradients (-1.5, 0) and counts (1, 2) with gradients (0.5, 1), then two
+    samples of 2 in bin 0 and one of 1 in bin 1 (same-step)."""
     return _c1("W9", _v1(), [(0.5, 0.0, False), (0.5, 2.0, False), (0.5, 2.0, False), (1.5, 1.0, False)], same=True, apply=True,
-               full=4, min=0, input={"cnt": [3, 0], "grad": [-1.5, 0.0]})
+               full=4, min=0, input=[{"cnt": [3, 0], "grad": [-1.5, 0.0]}, {"cnt": [1, 2], "grad": [0.5, 1.0]}])
 
 
 def judge_input(c, steps):
     last = steps[-1]
-    if last["cnt"] != [5, 1] or last["sum"] != [-8.5, -1.0]:
-        return ("inputPrefix with counts (3, 0) and gradients (-1.5, 0), then samples 2, 2 in bin 0 and 1 in bin 1: counts must be (5, 1) and sums "
-                "(-1.5*3 - 4, -1) = (-8.5, -1); the implementation has counts %s and sums %s" % (last["cnt"], last["sum"]))
+    if last["cnt"] != [6, 3] or last["sum"] != [-8.0, 1.0]:
+        return ("inputPrefix with two prefixes, counts (3, 0) / gradients (-1.5, 0) and counts (1, 2) / gradients (0.5, 1), then samples 2, 2 in bin 0 and 1 "
+                "in bin 1: counts must be (6, 3) and sums (-1.5*3 + 0.5*1 - 4, 1*2 - 1) = (-8, 1); the implementation has counts %s and sums %s" % (last["cnt"], last["sum"]))
     return None
 
 
@@ -887,11 +896,11 @@ def run_batch(exe, cases, d, tag):
         if c.get("scaled"):
             with open(os.path.join(d, "%s.sf" % c["id"]), "w") as f:
                 f.write(scaling_grid_file(c))
-        if c.get("input"):
-            tc, tg = input_grid_files(c)
-            with open(os.path.join(d, "%s_in.count" % c["id"]), "w") as f:
+        for n, ds in enumerate(inputs_of(c)):
+            tc, tg = input_grid_files(c, ds)
+            with open(os.path.join(d, "%s_in%d.count" % (c["id"], n)), "w") as f:
                 f.write(tc)
-            with open(os.path.join(d, "%s_in.grad" % c["id"]), "w") as f:
+            with open(os.path.join(d, "%s_in%d.grad" % (c["id"], n)), "w") as f:
                 f.write(tg)
     sc = os.path.join(d, "batch_%s.scn" % tag)
     with open(sc, "w") as f:
@@ -1026,7 +1035,7 @@ def check(run):
         run.dist("hideJacobian", 1 if c["hideJ"] else 0)
         run.dist("two_component_vars", sum(1 for v in c["vars"] if kind(v) == "lin2"))
         run.dist("scaledBiasingForce", 1 if c.get("scaled") else 0)
-        run.dist("inputPrefix", 1 if c.get("input") else 0)
+        run.dist("inputPrefix_datasets", len(inputs_of(c)))
         run.dist("applyBias_switched_at_run_time", 1 if c.get("toggle") else 0)
         if im.get("state") is not None:
             nstate += 1
